@@ -107,7 +107,7 @@ class ModifiedHalfNormal(Distribution):
         while True:
             X = rng.normal(mu, np.sqrt(0.5/beta))
             U = rng.uniform()
-            if X > 0 and np.log(U) < (alpha-1)*np.log(X) - np.log(mu) + (2*beta*mu-gamma)*(mu-X):
+            if X > 0 and np.log(U) < (alpha-1)*(np.log(X) - np.log(mu)) + (2*beta*mu-gamma)*(mu-X):
                 return X
 
     def _MHN_sample_positive_gamma_1(self, alpha, beta, gamma, rng):
